@@ -1,5 +1,6 @@
 import Mastverif.Model.Ptr
 import Mastverif.Model.PtrIter
+import Mastverif.Model.PtrCursor
 import Mastverif.Model.Store
 import Std.Data.HashMap
 /-!
@@ -27,6 +28,8 @@ structure PSt where
   /-- a store-load failure has been injected: the functional model (which knows no faults) no
       longer follows, the cross-check of the two models is off for the rest of the case -/
   faulted : Bool := false
+  /-- cursors: number ↦ (the cursor's own tree, its path — head = deepest) -/
+  curs : Std.HashMap Nat (PTree × CPath) := {}
   /-- what the last mirrored `get` / `iter` returned at the object level, in the protocol's format -/
   lastVal : String := ""
   /-- an object-level `get` / `iter` answered differently from the functional model -/
@@ -100,6 +103,22 @@ def pgraph (p : PSt) : String := Id.run do
       d := d'
       let nodes := (d.out.toList.drop before)
       parts := parts.push s!"T{sl}:{t.size},{t.height},{t.growAfter},{t.shrinkBelow},{r}\{{";".intercalate nodes}}"
+  -- the cursors: the cursor's own tree, then its path from the top node down (objects, indices)
+  let cids := (p.curs.toList.map (·.1)).toArray.qsort (· < ·)
+  for c in cids do
+    match p.curs[c]? with
+    | none => pure ()
+    | some (t, path) =>
+      let before := d.out.size
+      let (d', r) := dumpLink p.ps.heap p.names t.root d
+      d := d'
+      let mut ps : Array String := #[]
+      for (a, i) in path.reverse do
+        let (d', r) := dumpLink p.ps.heap p.names (.ptr a) d
+        d := d'
+        ps := ps.push s!"{r}:{i}"
+      let nodes := (d.out.toList.drop before)
+      parts := parts.push s!"K{c}:{t.size},{t.height},{t.growAfter},{t.shrinkBelow},{r}\{{";".intercalate nodes}}[{",".intercalate ps.toList}]"
   -- the cache: first entry per name, in name order
   let mut firsts : Std.HashMap String Nat := {}
   for (n, a) in p.ps.cache.reverse do
@@ -113,6 +132,43 @@ def pgraph (p : PSt) : String := Id.run do
     let nodes := (d.out.toList.drop before)
     cparts := cparts.push (if nodes.isEmpty then s!"{nm}={r}" else s!"{nm}={r}\{{";".intercalate nodes}}")
   return s!"last={p.last} " ++ " ".intercalate parts.toList ++ " C:" ++ ",".intercalate cparts.toList
+
+/-- the remaining protocol lines of `pmirror` -/
+def pmirrorRest (e : Enc) (layer : Nat → Nat) (bf : Nat) (p : PSt) (E : Env) (toks : List String) : PSt :=
+  let fin (p' : PSt) : PSt :=
+    { p' with failNext := none, names := extendNames e p'.ps.store p'.names }
+  let nat (x : String) : Option Nat := x.toNat?
+  let _ := layer
+  let _ := bf
+  match toks with
+  | ["clone", src, dst] =>
+    match nat src >>= (p.trees[·]?), nat dst with
+    | some t, some j =>
+      match clone E t p.nextId pfuel p.ps with
+      | .ok t' ps' => fin { p with ps := ps', trees := p.trees.insert j t', nextId := p.nextId + 1, last := "ok" }
+      | .err ps' => fin { p with ps := ps', last := "err" }
+      | r => fin { p with last := outcomeStr (resOutcome r) }
+    | _, _ => p
+  | [_, slot, rslot] =>
+    if toks.head? == some "root" || toks.head? == some "roots" then
+      match nat slot >>= (p.trees[·]?), nat slot, nat rslot with
+      | some t, some i, some j =>
+        match flush E t pfuel p.ps with
+        | .ok (t', n) ps' =>
+          fin { p with ps := ps', trees := p.trees.insert i t', roots := p.roots.insert j (n, t'.size, t'.height, t'.bf), last := "ok" }
+        | .err ps' => fin { p with ps := ps', last := "err" }
+        | r => fin { p with last := outcomeStr (resOutcome r) }
+      | _, _, _ => p
+    else if toks.head? == some "load" then
+      match nat slot >>= (p.roots[·]?), nat rslot with
+      | some (n, sz, h, bf'), some i =>
+        match loadMast E p.nextId n sz h bf' p.ps with
+        | .ok t ps' => fin { p with ps := ps', trees := p.trees.insert i t, nextId := p.nextId + 1, last := "ok" }
+        | .err ps' => fin { p with ps := ps', last := "err" }
+        | r => fin { p with last := outcomeStr (resOutcome r) }
+      | _, _ => p
+    else p
+  | _ => p
 
 /-- mirror one protocol line on the object-level model -/
 def pmirror (e : Enc) (layer : Nat → Nat) (bf : Nat) (p : PSt) (toks : List String) : PSt :=
@@ -162,34 +218,37 @@ def pmirror (e : Enc) (layer : Nat → Nat) (bf : Nat) (p : PSt) (toks : List St
       | .err ps' => fin { p with ps := ps', last := "err" }
       | r => fin { p with last := outcomeStr (resOutcome r) }
     | none => p
-  | ["clone", src, dst] =>
-    match nat src >>= (p.trees[·]?), nat dst with
-    | some t, some j =>
-      match clone E t p.nextId pfuel p.ps with
-      | .ok t' ps' => fin { p with ps := ps', trees := p.trees.insert j t', nextId := p.nextId + 1, last := "ok" }
+  | ["cur", slot, c] =>
+    match nat slot >>= (p.trees[·]?), nat c with
+    | some t, some c =>
+      match cursorNew E t p.nextId pfuel p.ps with
+      | .ok (t', path) ps' => fin { p with ps := ps', curs := p.curs.insert c (t', path), nextId := p.nextId + 1, last := "ok" }
       | .err ps' => fin { p with ps := ps', last := "err" }
       | r => fin { p with last := outcomeStr (resOutcome r) }
     | _, _ => p
-  | [_, slot, rslot] =>
-    if toks.head? == some "root" || toks.head? == some "roots" then
-      match nat slot >>= (p.trees[·]?), nat slot, nat rslot with
-      | some t, some i, some j =>
-        match flush E t pfuel p.ps with
-        | .ok (t', n) ps' =>
-          fin { p with ps := ps', trees := p.trees.insert i t', roots := p.roots.insert j (n, t'.size, t'.height, t'.bf), last := "ok" }
-        | .err ps' => fin { p with ps := ps', last := "err" }
-        | r => fin { p with last := outcomeStr (resOutcome r) }
-      | _, _, _ => p
-    else if toks.head? == some "load" then
-      match nat slot >>= (p.roots[·]?), nat rslot with
-      | some (n, sz, h, bf'), some i =>
-        match loadMast E p.nextId n sz h bf' p.ps with
-        | .ok t ps' => fin { p with ps := ps', trees := p.trees.insert i t, nextId := p.nextId + 1, last := "ok" }
+  | [cmd, c] | [cmd, c, _] =>
+    if cmd == "cmin" || cmd == "cmax" || cmd == "cfwd" || cmd == "cbwd" || cmd == "cceil" then
+      match nat c >>= (p.curs[·]?), nat c with
+      | some (t, path), some ci =>
+        let k := match toks with | [_, _, k] => (nat k).getD 0 | _ => 0
+        let x : M (CPath × Bool) :=
+          if cmd == "cmin" then cMin E pfuel path
+          else if cmd == "cmax" then cMax E pfuel path
+          else if cmd == "cfwd" then cForward E pfuel path
+          else if cmd == "cbwd" then cBackward E pfuel path
+          else cCeil E k pfuel path
+        match x p.ps with
+        | .ok (path', failed) ps' =>
+          let val := match cGet path' ps' with
+            | .ok (some (k, v)) _ => s!"{k}={v}"
+            | .ok none _ => "none"
+            | _ => "?"
+          fin { p with ps := ps', curs := p.curs.insert ci (t, path'), last := if failed then "err" else "ok", lastVal := val }
         | .err ps' => fin { p with ps := ps', last := "err" }
         | r => fin { p with last := outcomeStr (resOutcome r) }
       | _, _ => p
-    else p
-  | _ => p
+    else pmirrorRest e layer bf p E toks
+  | _ => pmirrorRest e layer bf p E toks
 
 /-- cross-check of the two models: every tree of the object-level model must denote (`absTree`)
     the tree the functional model holds in the same slot, up to flags on absent links -/
@@ -224,6 +283,9 @@ def pcheckVal (p : PSt) (toks : List String) (resp : String) : PSt :=
   match toks with
   | [cmd, slot] | [cmd, slot, _] =>
     if (cmd == "get" || cmd == "iter") && p.last == "ok" && (slot.toNat?.bind (p.trees[·]?)).isSome && p.lastVal != resp then
+      { p with valBad := p.valBad ++ [s!"{cmd}{slot}:{p.lastVal}"] }
+    else if (cmd == "cmin" || cmd == "cmax" || cmd == "cfwd" || cmd == "cbwd" || cmd == "cceil") && p.last == "ok" &&
+        (slot.toNat?.bind (p.curs[·]?)).isSome && p.lastVal != resp then
       { p with valBad := p.valBad ++ [s!"{cmd}{slot}:{p.lastVal}"] }
     else p
   | _ => p
